@@ -174,3 +174,55 @@ def leaf_values(buf, out=None):
             out.setdefault(tag, []).append(bytes(body))
         i += 8 + length + pad_to_8(length)
     return out
+
+
+def structurally_sound(buf):
+    """Only the nesting arithmetic: every item lies inside its parent (or the buffer), a structure's
+    children tile its declared length exactly, item sizes are padded to 8.  Nothing about tags, types
+    beyond 'structure or not', values or padding bytes - a decoder may be lenient about those, but a
+    message failing this test has no consistent reading at all."""
+    def walk_(lo, hi, depth):
+        i = lo
+        while i < hi:
+            if hi - i < 8 or depth > 40:
+                return False
+            typ = buf[i + 3]
+            length = ((buf[i + 4] * 256 + buf[i + 5]) * 256 + buf[i + 6]) * 256 + buf[i + 7]
+            padded = length + pad_to_8(length)
+            if i + 8 + padded > hi:
+                return False
+            if typ == T_STRUCT:
+                if length % 8 != 0 or not walk_(i + 8, i + 8 + length, depth + 1):
+                    return False
+            i += 8 + padded
+        return i == hi
+    return walk_(0, len(buf), 0)
+
+
+def structural_defect(buf):
+    """None when structurally_sound; otherwise the kind of the first item (in reading order) whose
+    extent is inconsistent with its parent: 'structure' or 'primitive'."""
+    found = []
+
+    def walk_(lo, hi, depth):
+        i = lo
+        while i < hi:
+            if hi - i < 8 or depth > 40:
+                found.append("structure")          # the parent's length leaves a fragment
+                return False
+            typ = buf[i + 3]
+            length = ((buf[i + 4] * 256 + buf[i + 5]) * 256 + buf[i + 6]) * 256 + buf[i + 7]
+            padded = length + pad_to_8(length)
+            if i + 8 + padded > hi:
+                found.append("structure" if typ == T_STRUCT else "primitive")
+                return False
+            if typ == T_STRUCT:
+                if length % 8 != 0:
+                    found.append("structure")
+                    return False
+                if not walk_(i + 8, i + 8 + length, depth + 1):
+                    return False
+            i += 8 + padded
+        return True
+    walk_(0, len(buf), 0)
+    return found[0] if found else None
